@@ -22,6 +22,7 @@ EXPLANATION = (
     "F5 both paths are reached from _compile on the same cnf (the non-trivial path writes cnf.to_dimacs() and loads with that same cnf)."
     " Added after seed round 6: F6 the compiler wrappers default to smooth=True and pass the smoothing flag on every path that reaches the compiler when smooth holds."
     " Added after seed round 8: F7 a memo kept by a CNF serialiser is reset by every method that writes what it was computed from."
+    " Added after seed round 10: F8 TrueConstraint.copy folded for the literals 7 and -7 with rename = {7: 27}: a positive literal becomes exactly the renamed atom, a negative literal stays negative."
 )
 TECHNIQUE = "static analysis: decision table of the .nnf reader over line kinds (symbolic substitution), carry-over (who-copies-what) rules, sibling agreement of the two compile paths"
 LEVEL_TEXT = EXPLANATION
@@ -404,6 +405,109 @@ def rule_f7(repo, col):
     col.floor("F7.reader_methods", len(readers), 4)
 
 
+class _NoValue(Exception):
+    pass
+
+
+def _ev(e, node_attr, node_val, rename_name, table, funcs=None, names=None, depth=0):
+    """value of an expression over one concrete literal: self.<node> = node_val, <rename> = table (a dict); module-level helper functions with a single return are followed"""
+    rec = lambda x: _ev(x, node_attr, node_val, rename_name, table, funcs, names, depth)
+    if isinstance(e, ast.Constant):
+        return e.value
+    if isinstance(e, ast.Attribute) and norm(e) == node_attr:
+        return node_val
+    if isinstance(e, ast.Name) and names is not None and e.id in names:
+        return names[e.id]
+    if isinstance(e, ast.Name) and e.id == rename_name and names is None:
+        return table
+    if isinstance(e, ast.Call) and isinstance(e.func, ast.Name) and funcs and e.func.id in funcs and depth < 2 and not e.keywords:
+        h = funcs[e.func.id]
+        body = [st for st in h.node.body if not (isinstance(st, ast.Expr) and isinstance(st.value, ast.Constant))]
+        if len(body) == 1 and isinstance(body[0], ast.Return) and body[0].value is not None and len(h.params) == len(e.args):
+            return _ev(body[0].value, node_attr, node_val, rename_name, table, funcs, dict(zip(h.params, [rec(a) for a in e.args])), depth + 1)
+    if isinstance(e, ast.UnaryOp) and isinstance(e.op, ast.USub):
+        return -rec(e.operand)
+    if isinstance(e, ast.UnaryOp) and isinstance(e.op, ast.Not):
+        return not rec(e.operand)
+    if isinstance(e, ast.BinOp) and isinstance(e.op, ast.Mult):
+        return rec(e.left) * rec(e.right)
+    if isinstance(e, ast.IfExp):
+        return rec(e.body) if rec(e.test) else rec(e.orelse)
+    if isinstance(e, ast.Compare) and len(e.ops) == 1:
+        a, b = rec(e.left), rec(e.comparators[0])
+        op = e.ops[0]
+        if isinstance(op, ast.Is):
+            return a is b
+        if isinstance(op, ast.IsNot):
+            return a is not b
+        if isinstance(op, ast.In):
+            return a in b
+        if isinstance(op, ast.NotIn):
+            return a not in b
+        if a is None or b is None:
+            raise _NoValue(norm(e))
+        return {ast.Lt: a < b, ast.LtE: a <= b, ast.Gt: a > b, ast.GtE: a >= b, ast.Eq: a == b, ast.NotEq: a != b}[type(op)]
+    if isinstance(e, ast.BoolOp):
+        vals = [rec(v) for v in e.values]
+        return all(vals) if isinstance(e.op, ast.And) else any(vals)
+    if isinstance(e, ast.Call) and isinstance(e.func, ast.Name) and e.func.id == "abs" and len(e.args) == 1:
+        return abs(rec(e.args[0]))
+    if isinstance(e, ast.Call) and isinstance(e.func, ast.Attribute) and e.func.attr == "get" and len(e.args) in (1, 2):
+        d = rec(e.func.value)
+        if isinstance(d, dict):
+            return d.get(rec(e.args[0]), rec(e.args[1]) if len(e.args) == 2 else None)
+    if isinstance(e, ast.Subscript):
+        d = rec(e.value)
+        if isinstance(d, dict):
+            k = rec(e.slice)
+            if k not in d:
+                raise _NoValue("KeyError %r" % (k,))
+            return d[k]
+    raise _NoValue(norm(e))
+
+
+def rule_f8(repo, col):
+    """TrueConstraint.copy(rename) - the constraint that carries evidence into the compiled circuit - keeps the polarity of its literal: folded for the literals 7 and -7 with
+    rename = {7: 27} (positive literal -> exactly the renamed atom; negative literal -> a negative literal)"""
+    c = repo.cls("problog.constraint", "TrueConstraint")
+    f = c.methods.get("copy")
+    if f is None or len(f.params) != 2:
+        raise AnalysisError("TrueConstraint.copy(rename) not found")
+    m = c.module
+    init = c.methods.get("__init__")
+    stores = [st for st in walk_no_nested(init.node) if isinstance(st, ast.Assign) and isinstance(st.targets[0], ast.Attribute) and norm(st.targets[0].value) == "self"
+              and isinstance(st.value, ast.Name) and st.value.id == init.params[1]]
+    if len(stores) != 1:
+        raise AnalysisError("TrueConstraint.__init__: literal field not found")
+    attr = norm(stores[0].targets[0])
+    rn = f.params[1]
+    n = 0
+    for lit in (7, -7):
+        got = set()
+        for p_ in dtable.extract(f.node, opaque_loops=True):
+            try:
+                if not all(bool(_ev(ast.parse(s_, mode="eval").body, attr, lit, rn, {7: 27}, m.functions)) == t_ for s_, t_, _ in p_.conds):
+                    continue
+                if p_.end != "return" or p_.value is None:
+                    raise AnalysisError("TrueConstraint.copy: a path does not return a constraint")
+                r = ast.parse(p_.value, mode="eval").body
+                if not (isinstance(r, ast.Call) and norm(r.func) == c.name and len(r.args) == 1):
+                    raise AnalysisError("TrueConstraint.copy: returned value not understood: %s" % p_.value[:80])
+                got.add(_ev(r.args[0], attr, lit, rn, {7: 27}, m.functions))
+            except _NoValue as e:
+                raise AnalysisError("TrueConstraint.copy: not foldable for the literal %d: %s" % (lit, e))
+        if len(got) != 1:
+            raise AnalysisError("TrueConstraint.copy: no single result for the literal %d (%s)" % (lit, sorted(got)))
+        g = got.pop()
+        ok = g == 27 if lit > 0 else (isinstance(g, int) and g < 0)
+        n += 1
+        col.decide("F8", m, f.node, ok, "TrueConstraint(%d).copy({7: 27}) keeps the polarity of the literal" % lit,
+                   "TrueConstraint(%d).copy({7: 27}) is TrueConstraint(%r): the compiled circuit then carries the evidence constraint on the %s literal - it contradicts every model of "
+                   "the circuit it was carried over to" % (lit, g, "opposite" if isinstance(g, int) and (g > 0) != (lit > 0) else "wrong"),
+                   construct="TrueConstraint.copy: literal %d" % lit, function="TrueConstraint.copy")
+    col.floor("F8.literals", n, 2)
+
+
 def run(repo, col):
     col.rule("F1", ".nnf reader: decision table over line kinds (atom, sign, children offsets, line counter)")
     col.rule("F2", "names: attached with their label to the signed node; absent literals -> TRUE / FALSE")
@@ -416,3 +520,5 @@ def run(repo, col):
     rule_f6(repo, col)
     col.rule("F7", "CNF serialisers keep no stale memo")
     rule_f7(repo, col)
+    col.rule("F8", "TrueConstraint.copy keeps the polarity of its literal")
+    rule_f8(repo, col)
